@@ -12,7 +12,7 @@ SPEC = dict(
          'in the library, arity, class of every parameter and of the result; (transfer) position-coded bytes written through the Rust mirror are read '
          'through the C definition and vice versa for every mirrored struct; (call-through) crc8/16/32/64 known answers, pid pos/inc, tf, trajtrap, '
          'trajbell, trajpoly3/5/7, regress_simple, version driven through the binding\'s public API and compared bit for bit with the same computation in C, '
-         'all under ASan/UBSan. quick = f64; thorough = f64 and the f32 feature. distinct_nontrivial = distinct declarations (struct, function, static) '
+         'all under ASan/UBSan. Both tiers run both real widths (f64 default and the f32 feature). distinct_nontrivial = distinct declarations (struct, function, static) '
          'and call-through scenarios compared on both sides.',
     exhaustive={},
     assumptions=_COMMON + [
